@@ -283,6 +283,11 @@ def build(spec):
             o = mk(p)
             p.back = o
             return p
+        if k == 4:            # a self-referential plain instance held (in every slot) by the shape: the cycle excludes the outer object
+            inner = S().Plain()
+            inner.me = inner
+            inner.box = [inner, {'k': inner}]
+            return [mk(inner), {'again': mk(inner)}]
         if k == 3:            # mutual Plain instances + the shape in between
             a, b = S().Plain(), S().Plain()
             a.b = b
@@ -321,7 +326,8 @@ def check_graph(T, sub, spec, opts_list, dumpers=DUMPERS):
     cyc = spec[0] == 'cycle'
     # a cycle must be preserved when it runs only through lists, dicts and plain instance dictionaries; through
     # constructor arguments / __setstate__ state / listitems / dictitems it may instead be rejected with ConstructorError
-    may_reject = cyc and shapes()[spec[2]][0] not in ('Plain', 'list', 'dict')
+    # (k == 4: the cycle runs through the inner plain instance only, whatever holds it)
+    may_reject = cyc and spec[1] != 4 and shapes()[spec[2]][0] not in ('Plain', 'list', 'dict')
     try:
         ref = reference(x)
         want = canon(ref)
@@ -437,7 +443,7 @@ def run_job(job, T):
                 check_graph(T, 'sharing', ('share', k, i, j), OPTS[:2] if q else OPTS)
         T.sample('sharing', {'holder': shapes()[i][0], 'inner': shapes()[j][0]})
     elif kind == 'cycle':
-        for k in range(4):
+        for k in range(5):
             check_graph(T, 'cycles', ('cycle', k, job[1]), OPTS[:3])
         T.sample('cycles', {'shape': shapes()[job[1]][0]})
     else:
